@@ -66,6 +66,20 @@ func (d *def) sexp() sx.Sexp {
 		}
 		out = append(out, sx.T("p", ps...))
 	}
+	if len(d.funcs) > 0 {
+		fs := []sx.Sexp{}
+		for _, f := range d.funcs {
+			xs := []sx.Sexp{sx.A(f.name), f.ret.sexp()}
+			if f.override {
+				xs = append(xs, sx.A("o"))
+			}
+			if f.final {
+				xs = append(xs, sx.A("f"))
+			}
+			fs = append(fs, sx.L(xs...))
+		}
+		out = append(out, sx.T("fn", fs...))
+	}
 	return sx.L(out...)
 }
 
@@ -436,6 +450,37 @@ func genChain(r *rand.Rand) []def {
 				if !dup {
 					d.params = append(d.params, attr{name: name, ty: []*ty{tInt, tStr, tAny, {k: "bool"}, {k: "float"}}[r.Intn(5)]})
 				}
+			}
+		}
+		if r.Intn(6) == 0 {
+			// member functions fx / fy / fz (no attribute is called so): fresh ones, and overrides of inherited ones — mostly
+			// proper (override => true, the same or a narrower type), sometimes not (no override, a wider type, a final one)
+			inh := map[string]fn{}
+			if d.parent >= 0 {
+				for _, f := range mkSpec(defs).funcs[d.parent] {
+					inh[f.name] = f
+				}
+			}
+			rets := []*ty{tInt, tStr, tAny, {k: "opt", elt: tInt}, {k: "float"}}
+			for _, name := range []string{"fx", "fy", "fz"} {
+				if r.Intn(2) == 0 {
+					continue
+				}
+				f := fn{name: name, ret: rets[r.Intn(len(rets))], final: r.Intn(8) == 0}
+				if pf, ok := inh[name]; ok {
+					f.override = r.Intn(10) != 0
+					switch r.Intn(4) {
+					case 0, 1:
+						f.ret = pf.ret
+					case 2:
+						if pf.ret.k == "any" || pf.ret.k == "opt" {
+							f.ret = tInt
+						}
+					}
+				} else if r.Intn(15) == 0 {
+					f.override = true
+				}
+				d.funcs = append(d.funcs, f)
 			}
 		}
 		defs = append(defs, d)
@@ -1084,6 +1129,74 @@ func exhaustiveParams(g *core.G) {
 	}
 }
 
+// member functions and interfaces, a small universe exhaustively: chains of three levels over level shapes — nothing / an
+// attribute (with a default, so `new(T)` builds an instance) / the function fx at Any / fx overridden at the same or at the
+// narrower type Integer / a second function fy —, plus a stranger root; one instance per type and the WHOLE instance-of
+// matrix: an interface (no attributes along the chain, functions) accepts exactly the types that have all its functions at
+// equal types — its own subtypes included or not (known finding C17-iface-override-covariant) —, every other type its
+// descendants
+func exhaustiveFuncs(g *core.G) {
+	type shape struct {
+		attr  bool
+		funcs []fn
+	}
+	fx := func(t *ty, o bool) fn { return fn{name: "fx", ret: t, override: o} }
+	fy := fn{name: "fy", ret: tInt}
+	roots := []shape{{}, {attr: true}, {funcs: []fn{fx(tAny, false)}}, {funcs: []fn{fx(tAny, false), fy}}, {attr: true, funcs: []fn{fx(tAny, false)}}}
+	mids := []shape{{}, {attr: true}, {funcs: []fn{fx(tAny, true)}}, {funcs: []fn{fx(tInt, true)}}, {funcs: []fn{fy}}, {attr: true, funcs: []fn{fx(tInt, true)}}}
+	leaves := []shape{{}, {attr: true}, {funcs: []fn{fx(tInt, true)}}}
+	strangers := []shape{{funcs: []fn{fx(tAny, false)}}, {funcs: []fn{fx(tInt, false)}}, {funcs: []fn{fy, fx(tAny, false)}}, {attr: true, funcs: []fn{fx(tAny, false), fy}}}
+	mk := func(sh shape, parent, i int) def {
+		d := def{parent: parent, eqKind: "-", eit: "-", funcs: sh.funcs}
+		if sh.attr {
+			d.attrs = []attr{{name: fmt.Sprintf("n%d", i), ty: tInt, kind: "n", dflt: iv(0)}}
+		}
+		return d
+	}
+	k := 0
+	for _, r0 := range roots {
+		for _, m := range mids {
+			for _, l := range leaves {
+				// an override needs the function in the chain; a fresh declaration needs it absent
+				has := func(shs []shape, name string) bool {
+					for _, sh := range shs {
+						for _, f := range sh.funcs {
+							if f.name == name {
+								return true
+							}
+						}
+					}
+					return false
+				}
+				ok := true
+				for _, f := range m.funcs {
+					ok = ok && f.override == has([]shape{r0}, f.name)
+				}
+				for _, f := range l.funcs {
+					ok = ok && f.override == has([]shape{r0, m}, f.name)
+				}
+				if !ok {
+					continue
+				}
+				st := strangers[k%len(strangers)]
+				k++
+				defs := []def{mk(r0, -1, 0), mk(m, 0, 1), mk(l, 1, 2), mk(st, -1, 3)}
+				var acts []action
+				for t := range defs {
+					acts = append(acts, action{op: "newpos", t: t})
+				}
+				for t := range defs {
+					for o := range defs {
+						acts = append(acts, action{op: "inst", t: t, o: o})
+					}
+				}
+				acts = append(acts, action{op: "eq", o: 0, o2: 3}, action{op: "inithash", o: 2})
+				g.Emit(opLine(defs, acts))
+			}
+		}
+	}
+}
+
 // ---- entry --------------------------------------------------------------------------------------------------------------------
 
 // attribute-less types (pcore treats a type without attributes whose ancestors have none either as an INTERFACE, matched
@@ -1127,6 +1240,7 @@ func gen(g *core.G) {
 	exhaustiveDeep(g)
 	exhaustiveTypes(g)
 	exhaustiveParams(g)
+	exhaustiveFuncs(g)
 	genTParam(g)
 	genInterfaces(g)
 	genIface(g)
